@@ -97,7 +97,7 @@ fn one_case(run: &Run, case: u64) {
     let mut p = GenParams::small(o.block, o.cap);
     p.target_entries = 6 + rng.below(14) as usize;
     p.max_depth = 4;
-    p.ctrl_names = run.tier == Tier::Thorough;
+    p.ctrl_names = true;
     let mut st = GenState {
         mode_cursor: (case as u32).wrapping_mul(13),
     };
